@@ -294,6 +294,53 @@ def shift_primes(kinds, off):
   return kinds
 
 
+def gen_cancel(run):
+  """Products / quotients in which a CONSTANT polynomial of one operand equals one of the other
+  (candidates for an LTI-style cancellation, which is not valid with time-varying coefficients)."""
+  for which in ("f*g", "g*f", "f/g-equal-den", "f/g-equal-num"):
+    for const in ("half", "two-term", "delay"):
+      for kind in ("P", "F5"):
+        yield (which, const, kind)
+
+
+def run_cancel(case):
+  which, const, kind = case
+  T = NX + 2
+  x = syms("x", NX)
+  one = [F(1)] * T
+  cpoly = {"half": {0: 1, 1: -0.5}, "two-term": {0: 2, 1: 1, 2: 0.25}, "delay": {0: 1, 2: 3}}[const]
+  cref = {k: [F(v)] * T for k, v in cpoly.items()}
+  sources = []
+  def st(p, salt):
+    L = T if kind == "P" else 5
+    vals = [F(PR[p] + salt + (n % 3)) for n in range(L)]
+    src = CountingSource([Q(v) for v in vals], name="s%d" % p)
+    sources.append(src)
+    return Stream(src), vals + [None] * (T - L)
+  s1, r1 = st(0, 0)
+  s2, r2 = st(1, 10)
+  if which in ("f*g", "g*f"):
+    f = ZFilter(dict(cpoly), {0: 1, 1: s1})          # C / (1 + s1 z^-1)
+    g = ZFilter({0: s2}, dict(cpoly))                # s2 / C
+    h = f * g if which == "f*g" else g * f
+    num, den = pmul(cref, {0: r2}), pmul({0: one, 1: r1}, cref)
+  elif which == "f/g-equal-den":
+    f = ZFilter({0: s1, 1: 1}, dict(cpoly))          # (s1 + z^-1) / C
+    g = ZFilter({0: 1, 1: s2}, dict(cpoly))          # (1 + s2 z^-1) / C
+    h = f / g
+    num, den = pmul({0: r1, 1: one}, cref), pmul(cref, {0: one, 1: r2})
+  else:
+    f = ZFilter(dict(cpoly), {0: 1, 1: s1})
+    g = ZFilter(dict(cpoly), {0: 1, 2: s2})
+    h = f / g
+    num, den = pmul(cref, {0: one, 2: r2}), pmul({0: one, 1: r1}, cref)
+  exp = tv_apply(num, den, x)
+  v = check_run(h, sources, exp, x, "tv-cancel:" + which, True)
+  if v is not None:
+    return v
+  return R(None, True, (which, const))
+
+
 def gen_algebra(run):
   for op in run.rot(OPS):
     for i, f in enumerate(POOL):
@@ -414,6 +461,8 @@ KINDS = OrderedDict([
   ("shapes", Kind(gen_shapes, run_shape, chunk=300,
                   rule="coefficient kind placements x construction route; non-trivial: >=1 Stream coefficient")),
   ("sparse", Kind(gen_sparse, run_sparse, chunk=8, rule="stream coefficients on delays 0..2 and 9..12, 30 input samples")),
+  ("cancel", Kind(gen_cancel, run_cancel, chunk=4,
+                  rule="products / quotients whose operands share a constant polynomial, streams elsewhere")),
   ("algebra", Kind(gen_algebra, run_algebra, chunk=8, rule="(op, f, g) over the pool of stream-bearing filters")),
   ("conststream", Kind(gen_conststream, run_conststream, chunk=60,
                        rule="every subset of coefficients replaced by constant streams")),
